@@ -102,7 +102,7 @@ AccessClauses(cur, schema, obs) ==
 \* prev = the scenarios of the previous access, prevok = they were what the property demanded then,
 \* dirty = a table was modified since
 JudgeAccess(cur, schema, obs, prev, prevok, dirty, n) ==
-   IF obs.pre # SnapOf(cur) THEN {<<"NOTJUDGED", n, "template", "">>}
+   IF NoLines(obs.pre) # NoLines(SnapOf(cur)) THEN {<<"NOTJUDGED", n, "template", "">>}
    ELSE LET iso  == IF obs.post # obs.pre THEN {<<"C06.isolation", n, "template", "">>} ELSE {}
             main == AccessClauses(cur, schema, obs)
         IN iso \cup (IF main # {} /\ n > 1 /\ dirty /\ prevok /\ obs.exc = "" /\ obs.scen = prev
